@@ -739,149 +739,6 @@ func stmtTable(f *shardfix.Fixture, st shardfix.Stmt, notes *[]string) (int, str
 	return idx, ""
 }
 
-// ---------------------------------------------------------------- known findings
-
-// goValue is what the planner passes to FindTableIndex for a literal.
-func goValue(v *driver.ValueExpr) (interface{}, bool) {
-	x, err := util.GetValueExprResult(v)
-	if err != nil || x == nil {
-		return nil, false
-	}
-	return x, true
-}
-
-func rawIndex(f *shardfix.Fixture, v *driver.ValueExpr) (idx int, ok bool) {
-	defer func() {
-		if recover() != nil {
-			ok = false
-		}
-	}()
-	g, ok := goValue(v)
-	if !ok {
-		return 0, false
-	}
-	i, err := f.Rule.FindTableIndex(g)
-	return i, err == nil
-}
-
-func litVal(v *driver.ValueExpr) (condeval.Val, bool) {
-	return condeval.Eval(v, func(string, string, string) (condeval.Val, bool) { return condeval.Val{}, false })
-}
-
-// atPeriodStart tells whether the literal is the first instant of calendar
-// table idx (the only case where "k < literal" may drop that table).
-func atPeriodStart(l shardfix.Layout, v *driver.ValueExpr, idx int) bool {
-	lv, ok := litVal(v)
-	if !ok {
-		return false
-	}
-	start := shardfix.PeriodStart(l.Kind, idx)
-	switch lv.K {
-	case condeval.KInt:
-		return lv.I == start.Unix()
-	case condeval.KStr:
-		t, ok := shardfix.ParseDatetime(lv.S)
-		return ok && t.Equal(start)
-	}
-	return false
-}
-
-// explain maps table indexes to the known finding that accounts for their
-// absence from the route, from the statement's own key comparisons.
-//
-//	C01-F1: calendar rule, "k < v" (or v > k) or the lower bound of NOT BETWEEN with v
-//	        not at the first instant of its period: the period of v itself is dropped.
-//	C01-F2: NOT BETWEEN lo AND hi with lo > hi on a range / calendar rule: the tables
-//	        from the one holding hi up to (not including) the one holding lo are dropped.
-func explain(f *shardfix.Fixture, leaves []keyLeaf) map[int]string {
-	out := map[int]string{}
-	l := f.Layout
-	if !l.IsRangeLike() {
-		return out
-	}
-	for _, kl := range leaves {
-		switch kl.op {
-		case "<":
-			if !l.IsDate() {
-				continue
-			}
-			if i, ok := rawIndex(f, kl.lits[0]); ok && !atPeriodStart(l, kl.lits[0], i) {
-				out[i] = "C01-F1"
-			}
-		case "notbetween":
-			lo, hi := kl.lits[0], kl.lits[1]
-			li, ok1 := rawIndex(f, lo)
-			hi2, ok2 := rawIndex(f, hi)
-			if !ok1 || !ok2 {
-				continue
-			}
-			if li > hi2 {
-				// swapped bounds (always true for non-NULL keys)
-				for _, tl := range f.Tables {
-					if tl.Index >= hi2 && tl.Index < li {
-						if _, dup := out[tl.Index]; !dup {
-							out[tl.Index] = "C01-F2"
-						}
-					}
-				}
-				continue
-			}
-			if l.IsDate() && !atPeriodStart(l, lo, li) {
-				out[li] = "C01-F1"
-			}
-		}
-	}
-	return out
-}
-
-// globalInBetween returns the location indexes of the global table when the
-// statement applies IN or BETWEEN to one of its columns at a place the planner
-// evaluates (reachable through AND / OR / parentheses), else nil.
-func globalInBetween(r *resolver, si *stmtInfo, f *shardfix.Fixture) map[int]bool {
-	var res map[int]bool
-	isGlobalCol := func(e ast.ExprNode) (shardfix.GlobalSpec, bool) {
-		c, ok := e.(*ast.ColumnNameExpr)
-		if !ok {
-			return shardfix.GlobalSpec{}, false
-		}
-		s := r.resolve(c.Name.Schema.L, c.Name.Table.L, c.Name.Name.L)
-		if s < 0 {
-			return shardfix.GlobalSpec{}, false
-		}
-		return f.Global(si.tabs[r.slots[s].tab].name)
-	}
-	var walk func(e ast.ExprNode)
-	walk = func(e ast.ExprNode) {
-		switch x := e.(type) {
-		case *ast.ParenthesesExpr:
-			walk(x.Expr)
-		case *ast.BinaryOperationExpr:
-			if x.Op == opcode.LogicAnd || x.Op == opcode.LogicOr {
-				walk(x.L)
-				walk(x.R)
-			}
-		case *ast.PatternInExpr:
-			if g, ok := isGlobalCol(x.Expr); ok {
-				res = map[int]bool{}
-				for _, cp := range g.Copies() {
-					res[cp.Index] = true
-				}
-			}
-		case *ast.BetweenExpr:
-			if g, ok := isGlobalCol(x.Expr); ok {
-				res = map[int]bool{}
-				for _, cp := range g.Copies() {
-					res[cp.Index] = true
-				}
-			}
-		}
-	}
-	for _, c := range si.conds {
-		walk(c)
-	}
-	return res
-}
-
 // ---------------------------------------------------------------- the property
 
 func otherDomain() []condeval.Val {
@@ -1114,30 +971,8 @@ func checkCase(c c01Case) (o pbt.Outcome) {
 		ws = append(ws, fmt.Sprintf("table %d (row %s)", i, needed[i]))
 	}
 	detail := fmt.Sprintf("%s rule, %q is sent to tables %v but a matching row can live in %s", l.Kind, c.SQL, keysOf(routed), strings.Join(ws, "; "))
-	ex := explain(f, leaves)
-	// C01-F3: IN / BETWEEN on a column of a joined global table yields the global
-	// rule's own location indexes (0..copies-1) as a route, which is intersected
-	// with the sharded table's route: every table whose index is not one of those
-	// numbers is dropped.
-	if gi := globalInBetween(r, si, f); gi != nil {
-		for _, tl := range f.Tables {
-			if _, dup := ex[tl.Index]; !dup && !gi[tl.Index] {
-				ex[tl.Index] = "C01-F3"
-			}
-		}
-	}
-	id := ""
-	for _, i := range missing {
-		e, ok := ex[i]
-		if !ok {
-			o.Violation = detail
-			return
-		}
-		if id == "" || e == "C01-F2" {
-			id = e
-		}
-	}
-	o.Known, o.KnownWhat = id, detail
+	// every routing defect found so far has been repaired: a missing table is a violation
+	o.Violation = detail
 	return
 }
 
